@@ -1083,6 +1083,27 @@ func checkRouteTreeS1(c *core.Ctx, r *core.Rule) {
 		r.Undecided("anchor:addRoute", "-", "gen.(*RouteTree).addRoute not found")
 		return
 	}
+	// the split may live in addRoute itself or in a helper of package gen it calls (splitChild): the function that
+	// calls replaceChild is the one the rule speaks about
+	{
+		cands := []*ssa.Function{ar}
+		seenF := map[*ssa.Function]bool{ar: true}
+		for i := 0; i < len(cands) && len(cands) < 12; i++ {
+			for _, call := range core.Calls(cands[i]) {
+				if cal := call.Common().StaticCallee(); cal != nil && !seenF[cal] && core.FuncPkgPath(cal) == pkgGen && len(cal.Blocks) > 0 && cal.Name() != "replaceChild" {
+					seenF[cal] = true
+					cands = append(cands, cal)
+				}
+			}
+		}
+		for _, f := range cands {
+			for _, call := range core.Calls(f) {
+				if cal := call.Common().StaticCallee(); cal != nil && cal.Name() == "replaceChild" {
+					ar = f
+				}
+			}
+		}
+	}
 	var replace ssa.CallInstruction
 	for _, call := range core.Calls(ar) {
 		if cal := call.Common().StaticCallee(); cal != nil && cal.Name() == "replaceChild" {
